@@ -659,9 +659,13 @@ func (d *decoder) parseDataFields(dm *defmsg, knownMsg bool, msgv reflect.Value)
 				for j := dsize; j < pfield.t.BaseType().Size(); j++ {
 					d.tmp[j] = 0x00
 				}
-			} else {
-				for j := 0; j < pfield.t.BaseType().Size(); j++ {
-					d.tmp[j], d.tmp[j+padding] = 0x00, d.tmp[j]
+			} else if pfield.t.Kind() != types.NativeFit {
+				// Right-align the value in the profile sized word.
+				// Native fields are parsed from the first dsize
+				// bytes using the definition's base type.
+				copy(d.tmp[padding:padding+dsize], d.tmp[:dsize])
+				for j := 0; j < padding; j++ {
+					d.tmp[j] = 0x00
 				}
 			}
 		}
